@@ -15,7 +15,7 @@ import (
 
 func init() {
 	Registry["C13"] = Set{
-		Explanation: "Decides structural clauses of network FIFO on every frame writer: F1 the link selector handed to send and the receive-queue selector stored in the order byte are pure functions of the sender/receiver identifier (no counter, clock or random leaf); F2 on every path on which KeepNetworkOrder is true (and in writers without that option) the value range of both selectors excludes 0, the round-robin sentinel tested in send and serve — decided with an interval domain over %, &, +, >>, conversions to narrower unsigned types, and one level of helper inlining; a constant 0 is accepted only in the frozen list of writers that have no ordered stream (termination notices, replies addressed by name/event); F3 one worker per receive queue: the producer pushes, then tries the queue lock, and starts the worker only on the lock's success edge with the same queue; the queue index is the order byte modulo the queue count whenever the byte is non-zero; F4 the modulus applied to the link selector for ordered traffic must not change during the connection's life (today it is len(c.pool), which grows while links are joined: known finding F-V). Added while probing: F5 the compression envelope copies the receive-queue selector (byte 6) of the frame it wraps; F6 every options literal a process or meta process builds for a Route{Send,Call}* call sets KeepNetworkOrder from the process's keeporder field. F6 also: when the options value is replaced on some path by the result of a helper, that helper's literal carries the keep-order setting too. F7 the receive-queue selector of the six message-carrying writers is derived from the same end of the pair (the sender) in every addressing mode. F8 = C03.O7: the order byte is replaced by 0 only on a branch that tests KeepNetworkOrder and nothing else.",
+		Explanation: "Decides structural clauses of network FIFO on every frame writer: F1 the link selector handed to send and the receive-queue selector stored in the order byte are pure functions of the sender/receiver identifier (no counter, clock or random leaf); F2 on every path on which KeepNetworkOrder is true (and in writers without that option) the value range of both selectors excludes 0, the round-robin sentinel tested in send and serve — decided with an interval domain over %, &, +, >>, conversions to narrower unsigned types, and one level of helper inlining; a constant 0 is accepted only in the frozen list of writers that have no ordered stream (termination notices, replies addressed by name/event); F3 one worker per receive queue: the producer pushes, then tries the queue lock, and starts the worker only on the lock's success edge with the same queue; the queue index is the order byte modulo the queue count whenever the byte is non-zero; F4 the modulus applied to the link selector for ordered traffic must not change during the connection's life (today it is len(c.pool), which grows while links are joined: known finding F-V). Added while probing: F5 the compression envelope copies the receive-queue selector (byte 6) of the frame it wraps; F6 every options literal a process or meta process builds for a Route{Send,Call}* call sets KeepNetworkOrder from the process's keeporder field. F6 also: when the options value is replaced on some path by the result of a helper, that helper's literal carries the keep-order setting too. F7 the receive-queue selector of the six message-carrying writers is derived from the same end of the pair (the sender) in every addressing mode. F8 = C03.O7: the order byte is replaced by 0 only on a branch that tests KeepNetworkOrder and nothing else. F9 the frame writer writes a frame to one link only, an element of the pool indexed by a remainder of the pool length (no neighbour link takes over a failed write, no second write is reachable). F10 the constructors of the link writer hand the underlying writer to bufio.NewWriter and keep it nowhere else (one path to the socket).",
 		NotDecided: []string{
 			"relative delay of pooled TCP links",
 			"behaviour after a link is lost and re-dialled",
@@ -169,6 +169,8 @@ func runC13(p *load.Program, r *core.Report) {
 	c13Worker(p, r)
 	c13Modulus(p, r, sendFn)
 	c13Envelope(p, r, sendFn, "C13.F5 envelope-keeps-selector")
+	c13OneLinkPerFrame(p, r, sendFn)
+	c13SinglePathToSocket(p, r)
 	c13Option(p, r)
 }
 
